@@ -60,6 +60,12 @@ def membership_case(draw):
     return dict(P=P, n=n, engine=engine, seed=draw(st.integers(0, 2 ** 31 - 1)))
 
 
+@st.composite
+def large_case(draw):
+    """n = 1e5 samples (the upper end of the stated range), all engines"""
+    return dict(P=draw(cloud()), n=100000, engine=draw(st.sampled_from([None, "Halton", "Sobol", "LHC"])), seed=draw(st.integers(0, 2 ** 31 - 1)))
+
+
 def body_membership(case):
     dreye = _dreye()
     P = np.asarray(case["P"], dtype=float)
@@ -83,7 +89,7 @@ def body_membership(case):
         check(d <= 1e-8 * span, "sample:not-a-convex-combination", f"sample at LP distance {d:.3g} from the hull")
     check(np.array_equal(X, X2), "sample:seed-not-reproducible", f"same int seed gives different samples (engine {engine})")
     check(np.array_equal(X3, X4), "sample:generator-not-reproducible", f"generators in equal states give different samples (engine {engine})")
-    labs = [f"d{P.shape[1]}", f"engine:{engine}", "n1" if n == 1 else ("n<=40" if n <= 40 else "n>40")]
+    labs = [f"d{P.shape[1]}", f"engine:{engine}", "n1" if n == 1 else ("n<=40" if n <= 40 else ("n>40" if n < 100000 else "nt:n=1e5"))]
     from scipy.spatial import Delaunay
 
     hv = P[hull.vertices]
@@ -252,5 +258,6 @@ PROP = Prop(
         Sub("membership_seed", membership_case(), body_membership, quick=600, thorough=30000, quick_shards=4, min_nt_share=0.2),
         Sub("uniformity", uniform_case(), body_uniform, quick=64, thorough=2500, quick_shards=8, min_nt_share=0.3),
         Sub("estimator_l1", est_case(), body_est, quick=400, thorough=20000, quick_shards=4, min_nt_share=0.3),
+        Sub("large_n", large_case(), body_membership, quick=4, thorough=64, quick_shards=4, thorough_shards=16, min_nt_share=0.0),
     ],
 )
